@@ -327,6 +327,22 @@ class SystemMachine:
                     raise Violation(*self.violation)
             await self.quiesce_and_check()
             self.info['traces'] = [(m, h, n) for _, m, h, n in self.server.calls][:400]
+            # whole-system witness search for C20's open finding: a block report with script
+            # hashes that is not notified until the *next* refresh although a refresh at that
+            # height had just been notified (stale _highest_block after a same-height reorg)
+            calls = self.server.calls
+            for i, (t, m, h, n) in enumerate(calls):
+                if m == 'on_block' and n > 0 and i >= 2 and calls[i - 1][1:3] == ('notify', h) \
+                        and calls[i - 2][1:3] == ('on_mempool', h) and \
+                        (i + 1 >= len(calls) or calls[i + 1][1] != 'notify'):
+                    t_deliver = calls[i - 2][0]
+                    started = [s0 for s0, t1, hh in self.server.mp_deliveries
+                               if t1 == t_deliver and hh == h]
+                    last_backup = max([b for b in self.server.backups if b <= t], default=None)
+                    if started and last_backup is not None and started[0] > last_backup:
+                        # the refresh was started after the last block had been backed out: fresh
+                        self.info['classes'].add('witness_block_report_waits_for_next_refresh')
+                        self.info['witness'] = [list(x[1:]) for x in calls[max(0, i - 6):i + 3]]
         finally:
             try:
                 await self.server.stop()
